@@ -200,7 +200,9 @@ impl Model {
     }
 }
 
-const PATHS: [&[&str]; 6] = [&["x"], &["y"], &["x", "z"], &["y", "z"], &["x", "q"], &["y", "q"]];
+// `size` / `first` are never defined by any layer: a layer must not answer for them out of its
+// container's synthetic members
+const PATHS: [&[&str]; 8] = [&["x"], &["y"], &["x", "z"], &["y", "z"], &["x", "q"], &["y", "q"], &["size"], &["first"]];
 
 // ---------------- the real runtime ----------------
 
